@@ -654,6 +654,16 @@ impl Database {
 
         let mut total_rows_affected: usize = 0;
 
+        // TRUNCATE empties the files in place and is not logged: frames logged before it
+        // would be replayed over the emptied table by the next checkpoint or recovery.
+        if self
+            .shared
+            .wal_enabled
+            .load(std::sync::atomic::Ordering::Acquire)
+        {
+            self.shared.checkpoint()?;
+        }
+
         for (schema_name, table_name) in &tables_info {
             let mut file_manager_guard = self.shared.file_manager.write();
             let file_manager = file_manager_guard.as_mut().unwrap();
